@@ -1,8 +1,12 @@
 #!/bin/bash
-# Regenerate coq/Generated/*.v from /repo's current Go source (translators registered in the harness).
+# Regenerate coq/Generated/*.v from the repository's current Go source (translators registered in the harness).
+# VERIF_REPO selects the tree (default /repo); VERIF_COQ_DIR the Coq tree; VERIF_HARNESS_BIN the harness binary.
 set -e
 cd "$(dirname "$0")/.."
-mkdir -p coq/Generated
+COQ=${VERIF_COQ_DIR:-$PWD/coq}
+mkdir -p "$COQ/Generated"
 BIN=harness/vharness
 [ -n "$VERIF_HARNESS_PKG" ] && [ "$VERIF_HARNESS_PKG" != "." ] && BIN=harness/bin/$(basename "$VERIF_HARNESS_PKG")
-exec "$BIN" -prop TRANSLATE -out coq/Generated
+[ -n "$VERIF_HARNESS_BIN" ] && BIN=$VERIF_HARNESS_BIN
+export VERIF_REPO=${VERIF_REPO:-/repo}
+exec "$BIN" -prop TRANSLATE -out "$COQ/Generated"
